@@ -143,6 +143,9 @@ func runC11(c *Ctx) {
 	checkRebuildAndCLIRemoval(c)
 	checkForgetsAfterRemoval(c, "R14.2")
 	checkExcerptsDeletedOnlyByRemoval(c, "R11.13")
+	checkIndexOneAlwaysIndexes(c, "R11.14")
+	checkValidLabelsComputed(c, "R11.15")
+	checkAppendNeverCompiles(c, "R10.2")
 	// the live snapshot keeps the staging order; so must what Commit stores and a rebuild reads back (shared with C04)
 	checkAuthorSplit(c)
 	checkSingleInstance(c, newLockWorld(w))
